@@ -47,6 +47,7 @@ pub struct Request {
     pub url: String,
     pub body: String,
     pub auth: Option<(String, Option<String>)>,
+    pub headers: Vec<(String, String)>,
 }
 
 #[derive(Clone, Debug, PartialEq)]
